@@ -65,9 +65,9 @@ func c06Gen(rt *rapid.T) wProg {
 		}
 		return gPick(rt, pool, "topic")
 	}
-	n := rapid.IntRange(3, 16).Draw(rt, "nops")
+	n := gInt(rt, 3, 16, "nops")
 	for i := 0; i < n; i++ {
-		s := rapid.IntRange(0, len(p.Sess)-1).Draw(rt, "s")
+		s := gInt(rt, 0, len(p.Sess)-1, "s")
 		sessOfUser := func(u int) int {
 			for hs := 1; hs < len(p.Sess); hs++ {
 				if p.Sess[hs] == u {
@@ -76,10 +76,10 @@ func c06Gen(rt *rapid.T) wProg {
 			}
 			return -1
 		}
-		switch x := rapid.IntRange(0, 99).Draw(rt, "opk"); {
+		switch x := gInt(rt, 0, 99, "opk"); {
 		case x < 3:
 			// a grant of exactly "N", the subscription removed, the user comes back
-			tgt := rapid.IntRange(1, 2).Draw(rt, "banned")
+			tgt := gInt(rt, 1, 2, "banned")
 			if hs := sessOfUser(tgt); hs > 0 {
 				p.Ops = append(p.Ops, wOp{K: "set", S: 0, T: "g0", A: "given", U: tgt, B: "N"})
 				if gPct(rt, 60) {
@@ -91,7 +91,7 @@ func c06Gen(rt *rapid.T) wProg {
 			}
 		case x < 6:
 			// a second administrator (A and S, not O) tries his hand at the owner's grant
-			adm := rapid.IntRange(1, 2).Draw(rt, "admin")
+			adm := gInt(rt, 1, 2, "admin")
 			if hs := sessOfUser(adm); hs > 0 {
 				p.Ops = append(p.Ops, wOp{K: "set", S: 0, T: "g0", A: "given", U: adm, B: "JRWPASD"},
 					wOp{K: "sub", S: hs, T: "g0", A: "JRWPASD"},
@@ -99,7 +99,7 @@ func c06Gen(rt *rapid.T) wProg {
 			}
 		case x < 13:
 			// ownership transfer attempt: grant by the (original) owner, optionally accepted
-			tgt := rapid.IntRange(1, 2).Draw(rt, "heir")
+			tgt := gInt(rt, 1, 2, "heir")
 			p.Ops = append(p.Ops, wOp{K: "set", S: 0, T: "g0", A: "given", U: tgt, B: gPick(rt, []string{"JRWPASDO", "JRWPSO", "O"}, "grant")})
 			if gPct(rt, 70) {
 				for hs := 1; hs < len(p.Sess); hs++ {
@@ -118,13 +118,13 @@ func c06Gen(rt *rapid.T) wProg {
 			p.Ops = append(p.Ops, wOp{K: "sub", S: s, T: topicFor(s), A: gPick(rt, gOwnWant, "want")})
 		case x < 38:
 			p.Ops = append(p.Ops, wOp{K: "set", S: s, T: gPick(rt, []string{"g0", "g0", "g0", "p1", "p0", "me"}, "t"), A: "given",
-				U: rapid.IntRange(0, 3).Draw(rt, "target"), B: gPick(rt, gOwnGiven, "given")})
+				U: gInt(rt, 0, 3, "target"), B: gPick(rt, gOwnGiven, "given")})
 		case x < 52:
 			p.Ops = append(p.Ops, wOp{K: "set", S: s, T: topicFor(s), A: "mode", B: gPick(rt, gOwnWant[1:], "want")})
 		case x < 60:
 			p.Ops = append(p.Ops, wOp{K: "leave", S: s, T: topicFor(s), F: gPct(rt, 70)})
 		case x < 68:
-			p.Ops = append(p.Ops, wOp{K: "del", S: s, T: "g0", A: "sub", U: rapid.IntRange(0, 3).Draw(rt, "target")})
+			p.Ops = append(p.Ops, wOp{K: "del", S: s, T: "g0", A: "sub", U: gInt(rt, 0, 3, "target")})
 		case x < 73:
 			p.Ops = append(p.Ops, wOp{K: "del", S: s, T: gPick(rt, []string{"g0", "g0", "p1", "p0"}, "t"), A: "topic", F: gPct(rt, 50)})
 		case x < 82:
